@@ -500,6 +500,46 @@ def unknown_index_fresh(ck, i):
         ck.violation('acquire-for-an-unknown-index-left-an-ike-sa-or-sent-something', {'table': [x.state.name for x in a.ctl.ike_sas], 'sent': len(sim.net)}, sim.case)
 
 
+def lenient_responder(ck, i):
+    """A responder that is conformant but does not narrow: it answers the offer for an entry `ip_proto: any` + port with protocol 0 / ports 0-65535 (or with
+    another port). Whatever the initiator does with such an answer, no SA reaches its kernel whose selector has another port than the entry's."""
+    from vf.ref import party
+    from vf.checks import c02
+    rng = ck.rng('lenient', i)
+    port = (443, 53, 8080)[i % 3]
+    on_peer_side = i % 2 == 0
+    kw = dict(mode='tunnel', a_subnet='10.1.0.0/24', b_subnet='10.2.0.0/24', ip_proto='any', a_port=0 if on_peer_side else port, b_port=port if on_peer_side else 0)
+    sim, a, b = S.make_pair(ck.seed * 29 + i, **kw)
+    sim.case = {'family': 'lenient-responder', 'entry': kw}
+    sim.acquire(a, 0, **({'dport': port} if on_peer_side else {'sport': port}))
+    req = sim.net.pop(0).data
+    p = party.RefParty(S.B4, S.A4, rng)
+    sim.inject(a, S.B4, S.A4, p.respond_init(req))
+    if not sim.net:
+        return
+    areq = sim.net.pop(0).data
+    n0 = len(a.kernel.requests)
+    a4n, b4n = ipaddress.ip_network('10.1.0.0/24'), ipaddress.ip_network('10.2.0.0/24')
+    full = lambda net, lo, hi, pr: {'tstype': 7, 'ipproto': pr, 'sport': lo, 'eport': hi, 'saddr': net[0].packed, 'eaddr': net[-1].packed}
+    answer = [('protocol-0-all-ports', 0, 0, 65535), ('protocol-0-another-port', 0, port + 1, port + 1), ('tcp-all-ports', 6, 0, 65535), ('protocol-0-port-range-around', 0, port - 1, port + 1)][(i // 6) % 4]
+    label, pr_, lo, hi = answer
+    ti = full(a4n, 0, 65535, 0) if on_peer_side else full(a4n, lo, hi, pr_)
+    tr = full(b4n, lo, hi, pr_) if on_peer_side else full(b4n, 0, 65535, 0)
+    sim.case['answer'] = label
+    sim.inject(a, S.B4, S.A4, p.respond_auth(areq, c02.ID_B[0], c02.ID_B[1], 2, p.auth_psk(c02.PSK_B, *c02.ID_B), force_ts=(ti, tr)))
+    ck.count('lenient_responder.answers')
+    ck.nontrivial(('lenient', label, port, on_peer_side))
+    new = [r_ for r_ in a.kernel.requests[n0:] if r_['msg'] and r_['msg']['name'] == 'NEWSA']
+    ck.count('lenient_responder.installed' if new else 'lenient_responder.refused')
+    for r_ in new:
+        ks = r_['msg']['sa']['sel']
+        outb = r_['msg']['sa']['saddr'] == S.A4
+        # the entry's port is on the peer side (destination of outbound traffic) or on ours
+        fld = ('d' if outb else 's') if on_peer_side else ('s' if outb else 'd')
+        if ks[fld + 'port'] != port or ks[fld + 'port_mask'] != 0xFFFF:
+            ck.violation(f'sa-installed-with-a-port-selector-outside-the-entry:{label}', {'entry_port': port, 'kernel_selector': ks}, sim.case)
+
+
 def run(ck):
     thorough = ck.thorough()
     for i in range(300 if not thorough else 60000):
@@ -524,6 +564,9 @@ def run(ck):
             acquire_case(ck, ck.rng('acq', i), i)
     if ck.mine(1):
         unknown_index_fresh(ck, 1)
+    for i in range(48 if not thorough else 960):
+        if ck.mine(i + 3):
+            lenient_responder(ck, i)
     for i in range(30 if not thorough else 300):
         if ck.mine(i + 5):
             acquire_in_a_busy_turn(ck, i)
@@ -534,6 +577,7 @@ def run(ck):
 
 def verdict(ck):
     c = ck.counters
+    ck.floor('answers of a responder that does not narrow an any-protocol entry with a port', c['lenient_responder.answers'], 40)
     ck.floor('lifetimes of SAs installed by a rekey compared with the entry', c['acquire.rekeyed_lifetimes_checked'], 20)
     ck.floor('configurations loaded', c['construction.configs'], 250)
     ck.floor('policies compared', c['spd.policies_checked'], 2000)
